@@ -17,8 +17,14 @@ pub fn eval(state: &mut RunState, line: &str) {
 
 /// Wrapper to group errors into one location
 fn eval_inner(state: &mut RunState, line: &'static str) -> Result<()> {
+    // Line which the simulated instruction would occupy, so that label operands resolve relative
+    // to the current PC (which is already 'incremented' past the instruction)
+    let asm_line = state.pc().wrapping_sub(state.orig());
+
     // Parse
-    let stmt = AsmParser::new_simple(line)?.parse_simple()?;
+    let stmt = AsmParser::new_simple(line)?
+        .at_line(asm_line)
+        .parse_simple()?;
 
     match stmt {
         // Don't allow any branch instructions
@@ -81,7 +87,7 @@ fn eval_inner(state: &mut RunState, line: &'static str) -> Result<()> {
     }
 
     // Check labels
-    let mut asm = AsmLine::new(0, stmt, Span::dummy());
+    let mut asm = AsmLine::new(asm_line, stmt, Span::dummy());
     asm.backpatch()?;
 
     // Compile and execute
